@@ -24,6 +24,14 @@ def generate(R, tier):
         c["sigs"] = ["*:64:0:*:mss*10,6:mss,sok,ts,nop,ws:df,id+%s:%s" % (q, pc) for q in ("", ",pushf+", ",urgf+", ",ack-", ",seq-", ",ecn", ",uptr+")
                      for pc in ("0", "*", "+")]
         c["flagsets"] = [R.choice([0, 0x08, 0x20, 0x40, 0xC0]) for _ in c["pkts"]]
+        # payloads that are NOT complete messages (headers cut before the blank line, nothing, noise): the call fails, the buffer must stay as it was
+        base = bytes.fromhex(c["payloads"][0])
+        extra = [base[:max(0, len(base) - 2)], base[:len(base) // 2], b"", b"GET / HTTP/1.1\r\nHost: a\r\n", b"\x00\xff garbage"]
+        c["payloads"] = list(c["payloads"]) + [x.hex() for x in extra]
+        ops = list(c["ops"])
+        for k in range(len(c["payloads"]) - len(extra), len(c["payloads"])):
+            ops.insert(R.randint(1, len(ops)), {"op": "http", "payload": k, "btype": "bytes"})
+        c["ops"] = ops
         yield c
 
 
